@@ -138,8 +138,8 @@ def unit(job, variant, pi, seed, length, fork_every):
 def main(ck: Check):
     quick = ck.tier == "quick"
     variants = [0, 1] if quick else [0, 1, 2]
-    plans_per = 2 if quick else 6
-    length = (25, 40) if quick else (40, 90)
+    plans_per = 2 if quick else 18
+    length = (25, 40) if quick else (60, 140)
     fork_every = 3 if quick else 1
     rng = ck.rng
     work = [(job, v, pi, ck.seed, rng.randint(*length), fork_every) for job in JOBS for v in variants for pi in range(plans_per)]
